@@ -186,7 +186,7 @@ class World(object):
                         getattr(p.event, 'vid', -1) if p.event is not None else None,
                         (so.state_buffer, so.resultlen, so.result, so.closed) if so is not None else None,
                         (si.input_buffer, si.closed) if si is not None else None,
-                        (pipe.accepted, pipe.broken) if pipe is not None else None))
+                        (pipe.accepted, pipe.broken, pipe.hangs) if pipe is not None else None))
         return tuple(out)
 
     def obs_key(self):
@@ -274,6 +274,22 @@ def monitor(start, ops, trace, envelopes):
     for k, (op, (post, outs)) in enumerate(zip(ops, trace)):
         kind = op[0]
         where = {'step': k, 'operation': [x if not isinstance(x, (bytes, bytearray)) else list(x) for x in op]}
+        for i in range(n):
+            if post[i][7] is not None and post[i][7][2] > (pre[i][7][2] if pre[i][7] is not None and kind != 'spawn' else 0):
+                return dict(where, broken='supervisord would sleep in write(2) on the stdin of listener %d: the descriptor '
+                                          'is blocking (make_pipes did not set O_NONBLOCK) and the data does not fit the '
+                                          'room the pipe has (large envelope, or a listener that does not read)' % i)
+        if kind == 'writable' and op[2][0] == 'room' and pre[op[1]][6] is not None and pre[op[1]][7] is not None:
+            # a write event with enough room, stdin open, pipe intact: the rest of a partly written
+            # envelope must go out - also while the listener is being stopped and finishes its event
+            i = op[1]
+            ibuf, iclosed = pre[i][6]
+            if ibuf and not iclosed and not pre[i][7][1] and op[2][1] >= len(ibuf) and pre[i][1]:
+                if post[i][6] is None or post[i][6][0] != b'' or post[i][7][0] != pre[i][7][0] + ibuf:
+                    return dict(where, broken='listener %d: %d bytes of a partly written envelope stay unsent although its '
+                                              'stdin is open and writable (process state %s, killing=%s): the listener '
+                                              'received a header announcing more payload than it ever gets'
+                                              % (i, len(ibuf), pre[i][0], pre[i][2]))
         if kind == 'finish' and 'SRaise' in outs:
             return dict(where, broken='an exception escaped from finish() (drain of a dead listener): it would end the main loop')
         if kind != 'dispatch':
